@@ -110,6 +110,8 @@ fn scenario(s: Scn) {
         c.join().expect("clock thread");
     }
     let name = s.name();
+    // the scenario starts 250 ms into a 500 ms bucket: a step below 250 ms keeps all activity in that bucket
+    let within_bucket = s.clock_step < 250;
     // ---- oracle
     match stat::get_resource_node(&res) {
         None => found("node/missing-from-map", format!("{name}: no node registered for the resource")),
@@ -133,8 +135,8 @@ fn scenario(s: Scn) {
                 let got = wide.sum(ev);
                 if got > want {
                     found(&format!("totals/{what}-exceeds-what-was-recorded"), format!("{name}: node reports {got}, threads recorded {want}"));
-                } else if got < want && s.clock_step == 0 {
-                    found(&format!("totals/{what}-lost-within-one-bucket"), format!("{name}: node reports {got}, threads recorded {want} (clock fixed inside one bucket)"));
+                } else if got < want && within_bucket {
+                    found(&format!("totals/{what}-lost-within-one-bucket"), format!("{name}: node reports {got}, threads recorded {want} (all activity inside one bucket)"));
                 }
             }
         }
@@ -150,7 +152,7 @@ fn scenario(s: Scn) {
             let got = wide.sum(ev);
             if got > want {
                 found(&format!("inbound/{what}-exceeds-what-was-recorded"), format!("{name}: {got} > {want}"));
-            } else if got < want && s.clock_step == 0 {
+            } else if got < want && within_bucket {
                 found(&format!("inbound/{what}-lost-within-one-bucket"), format!("{name}: {got} < {want}"));
             }
         }
@@ -167,9 +169,14 @@ fn main() {
         for pairs in [1usize, 2] {
             for preexisting in [false, true] {
                 for inbound in [false, true] {
-                    for clock_step in [0u64, 300, 600] {
+                    // 0: clock fixed; 100: a step inside the bucket (response times become non-zero, totals stay
+                    // exact); 300 / 600: across one / two bucket edges; 10_000: one whole ring interval (the same slot again)
+                    for clock_step in [0u64, 100, 300, 600, 10_000] {
                         for leave_open in [false, true] {
-                            if threads == 3 && pairs == 2 && clock_step == 600 {
+                            if threads == 3 && pairs == 2 && clock_step >= 600 {
+                                continue;
+                            }
+                            if (clock_step == 100 || clock_step == 10_000) && (leave_open || (threads == 3 && pairs == 2)) {
                                 continue;
                             }
                             scns.push(Scn { threads, pairs, preexisting, inbound, clock_step, leave_open, batch: if pairs == 2 { 3 } else { 1 } });
